@@ -762,3 +762,205 @@ Proof.
   and_step ltac:(apply icomments_none; now apply no_comment_nl).
   reflexivity.
 Qed.
+
+(* ---------- a struct block ---------- *)
+Definition member_text (p : string * ty) : string := tab ++ fst p ++ ": " ++ idl_name (snd p) ++ nl.
+Definition member_node (p : string * ty) : inode := NVal (VMember (fst p) (ity_of (snd p))).
+Definition struct_text (n : string) (fs : list (string * ty)) : string :=
+  "struct " ++ n ++ nl ++ String.concat "" (map member_text fs) ++ "end" ++ nl.
+Definition struct_val (n : string) (fs : list (string * ty)) : ival :=
+  VStruct n (map (fun p => (fst p, ity_of (snd p))) fs).
+
+Lemma gen_struct_text n sg fs : gen_struct (n, (sg, Some (struct_block fs))) = struct_text n fs.
+Proof. unfold gen_struct, struct_text, struct_block. cbn [fst snd]. now rewrite map_map. Qed.
+
+(* what may follow a declaration: nothing, a struct block or an interface block *)
+Definition decl_rest (rest : string) : Prop :=
+  rest = "" \/ (exists x, rest = String "s" x) \/ (exists x, rest = String "i" x).
+Lemma decl_rest_no_comment rest : decl_rest rest -> no_comment rest.
+Proof. intros [->|[(x & ->)|(x & ->)]]; reflexivity. Qed.
+
+Lemma is_ident_iident s : is_ident s = true -> is_iident s = true.
+Proof.
+  destruct s as [|c r]; [discriminate|]. cbn. intro H. apply andb_prop in H as [Hc Hr].
+  unfold is_alpha_. now rewrite Hc, Hr.
+Qed.
+
+Lemma members_of_nodes_map fs : members_of_nodes (map member_node fs) = Some (map (fun p => (fst p, ity_of (snd p))) fs).
+Proof. induction fs as [|p fs IH]; cbn; [reflexivity|now rewrite IH]. Qed.
+
+Lemma imember_ws f s : imember (itype f) (nl ++ s) = imember (itype f) s.
+Proof. unfold imember. apply pand_ext. reflexivity. Qed.
+
+Lemma member_item f p rest : is_ident (fst p) = true -> idl_safe (snd p) = true -> (idl_depth (snd p) < f)%nat ->
+  no_comment rest -> fst (imember (itype f) (member_text p ++ rest)) = Ok (member_node p) (nl ++ rest).
+Proof.
+  intros Hn Hs Hd Hr. unfold member_text, tab. rewrite !sapp_assoc. cbn [append].
+  unfold imember. rewrite pand_fst.
+  and_step ltac:(change (iident (String "009" ?s)) with (iident s); apply iident_ok; [now apply is_ident_iident|reflexivity]).
+  and_step ltac:(reflexivity).
+  and_step ltac:(rewrite itype_ws; apply itype_name; [assumption|assumption|reflexivity]).
+  and_step ltac:(apply icomments_none; now apply no_comment_nl).
+  reflexivity.
+Qed.
+
+Lemma member_text_shape p : is_ident (fst p) = true -> exists c r, member_text p = String "009" (String c r) /\ is_alpha c = true.
+Proof.
+  intro H. destruct p as [[|c r] t]; [discriminate|]. cbn in H. apply andb_prop in H as [Hc _].
+  unfold member_text, tab. cbn [fst append]. eauto.
+Qed.
+
+Lemma alpha_no_comment c r : is_alpha c = true -> no_comment (String "009" (String c r)).
+Proof.
+  intro H. unfold no_comment. cbn [skip_ws]. change (@is_ws "009") with true. cbn iota.
+  rewrite (alpha_not_ws c H). destruct c as [[] [] [] [] [] [] [] []]; try reflexivity; discriminate.
+Qed.
+
+Lemma struct_block_parses f n fs rest : idl_safe (TStruct n fs) = true ->
+  Forall (fun p => (idl_depth (snd p) < f)%nat) fs -> decl_rest rest ->
+  fst (ideclaration (itype f) (struct_text n fs ++ rest)) = Ok (NVal (struct_val n fs)) (nl ++ rest).
+Proof.
+  intros Hs Hd Hrest. cbn [idl_safe] in Hs. apply andb_prop in Hs as [Hn Hfs].
+  destruct (no_basic_prefix n Hn) as (Hsn & _).
+  assert (Hf : Forall (fun p => is_ident (fst p) = true /\ idl_safe (snd p) = true) fs).
+  { apply Forall_forall. intros p Hp. rewrite forallb_forall in Hfs. specialize (Hfs p Hp). now apply andb_prop in Hfs. }
+  pose proof (decl_rest_no_comment rest Hrest) as Hnc.
+  unfold struct_text. rewrite !sapp_assoc. cbn [append].
+  set (body := String.concat "" (map member_text fs)).
+  set (tail := String "e" (String "n" (String "d" (nl ++ rest)))).
+  unfold ideclaration.
+  apply (por_cons_ok (Some nodify_first) _ _ _ (NVal (struct_val n fs)) (nl ++ rest)).
+  unfold istructure. rewrite pand_fst.
+  and_step ltac:(reflexivity).
+  and_step ltac:(change (type_ident (String " " ?s)) with (type_ident s); apply type_ident_ok; [assumption|reflexivity]).
+  assert (Hbody : no_comment (nl ++ body ++ tail)).
+  { apply no_comment_nl. subst body. destruct fs as [|p fs']; [reflexivity|].
+    inversion Hf as [|? ? [Hp _] _]; subst. destruct (member_text_shape p Hp) as (c & r & E & Hc).
+    cbn [map]. rewrite sconcat_cons, E. cbn [append]. now apply alpha_no_comment. }
+  and_step ltac:(now apply icomments_none).
+  assert (Hk : fst (kleene (Some inodify_member_list) (imember (itype f)) (nl ++ body ++ tail)) =
+               Ok (NVal (VStruct "parameters" (map (fun p => (fst p, ity_of (snd p))) fs))) (nl ++ tail)).
+  { rewrite kleene_fst. subst body.
+    replace (map member_text fs) with (map fst (map (fun p => (member_text p, member_node p)) fs))
+      by (rewrite map_map; reflexivity).
+    rewrite (kleene_lines (imember (itype f)) no_comment (map (fun p => (member_text p, member_node p)) fs) tail).
+    - cbn [lift docb]. unfold inodify_member_list. rewrite !map_map. cbn [snd].
+      change (map (fun x => member_node x) fs) with (map member_node fs). now rewrite members_of_nodes_map.
+    - intro s. now rewrite imember_ws.
+    - intros t nd Hin rest' Hr. apply in_map_iff in Hin as (p & Ep & Hp). inversion Ep; subst.
+      rewrite Forall_forall in Hf, Hd. destruct (Hf p Hp). now apply member_item; [| |apply Hd|].
+    - intros t nd Hin. apply in_map_iff in Hin as (p & Ep & Hp). inversion Ep; subst.
+      rewrite Forall_forall in Hf. destruct (Hf p Hp) as [Hi _].
+      destruct (member_text_shape p Hi) as (c & r & E & Hc). rewrite E. split; [cbn; lia|].
+      intro r'. cbn [append]. now apply alpha_no_comment.
+    - reflexivity.
+    - (* the member parser reads "end" as a name and then misses the colon *)
+      subst tail. unfold imember. rewrite pand_fst.
+      and_step ltac:(apply (iident_ok "end" (nl ++ rest)); reflexivity).
+      and_fail ltac:(unfold atom, nl; cbn [append skip_ws]; change (@is_ws "010") with true; cbn iota;
+                     destruct Hrest as [->|[(x & ->)|(x & ->)]]; reflexivity).
+      reflexivity.
+    - rewrite map_length. unfold nl. cbn [append String.length]. rewrite slen_app.
+      pose proof (concat_len_ge (map fst (map (fun p => (member_text p, member_node p)) fs))) as Hl.
+      rewrite !map_length in Hl.
+      assert (forall t, In t (map fst (map (fun p => (member_text p, member_node p)) fs)) -> (1 <= String.length t)%nat).
+      { intros t Hin. rewrite map_map in Hin. apply in_map_iff in Hin as (p & <- & Hp). cbn [fst].
+        unfold member_text, tab. cbn. lia. }
+      specialize (Hl H). lia. }
+  and_step ltac:(exact Hk).
+  and_step ltac:(reflexivity).
+  and_step ltac:(apply icomments_none; now apply no_comment_nl).
+  reflexivity.
+Qed.
+
+(* ---------- substrings: every type name is written somewhere in the text, so the parser's
+   fuel (the length of the text) exceeds the nesting of every type expression ---------- *)
+Definition sub (x y : string) : Prop := exists a b, y = a ++ x ++ b.
+Lemma sub_refl x : sub x x.
+Proof. exists "", "". cbn. now rewrite sapp_nil_r. Qed.
+Lemma sub_trans x y z : sub x y -> sub y z -> sub x z.
+Proof. intros (a & b & ->) (c & d & ->). exists (c ++ a), (b ++ d). now rewrite !sapp_assoc. Qed.
+Lemma sub_l x a y : sub x y -> sub x (a ++ y).
+Proof. intros (c & d & ->). exists (a ++ c), d. now rewrite !sapp_assoc. Qed.
+Lemma sub_r x y b : sub x y -> sub x (y ++ b).
+Proof. intros (c & d & ->). exists c, (d ++ b). now rewrite !sapp_assoc. Qed.
+Lemma sub_concat x l : In x l -> sub x (String.concat "" l).
+Proof.
+  induction l as [|y l IH]; [intros []|]. rewrite sconcat_cons. intros [->|H].
+  - apply sub_r, sub_refl.
+  - apply sub_l. now apply IH.
+Qed.
+Lemma sub_join sep x l : In x l -> sub x (join sep l).
+Proof.
+  induction l as [|y l IH]; [intros []|]. intros [->|H].
+  - destruct l as [|z l]; [apply sub_refl|]. rewrite join_cons2. apply sub_r, sub_refl.
+  - destruct l as [|z l]; [destruct H|]. rewrite join_cons2. apply sub_l, sub_l. now apply IH.
+Qed.
+Lemma sub_len x y : sub x y -> (String.length x <= String.length y)%nat.
+Proof. intros (a & b & ->). rewrite !slen_app. lia. Qed.
+
+Lemma sub_depth t y : idl_safe t = true -> sub (idl_name t) y -> (idl_depth t < S (String.length y))%nat.
+Proof. intros Hs Hsub. pose proof (idl_depth_le_len t Hs). pose proof (sub_len _ _ Hsub). lia. Qed.
+
+Lemma sub_param (p : string * ty) : sub (idl_name (snd p)) (param_str p).
+Proof. unfold param_str. apply sub_l, sub_l, sub_refl. Qed.
+
+Lemma sub_params sep (l : list (string * ty)) t : In t (map snd l) -> sub (idl_name t) (join sep (map param_str l)).
+Proof.
+  intro H. apply in_map_iff in H as (p & <- & Hp). eapply sub_trans; [apply sub_param|].
+  apply sub_join. now apply in_map.
+Qed.
+
+Lemma sub_method_param m t : In t (tm_params m) -> sub (idl_name t) (method_text m).
+Proof.
+  intro H. unfold method_text, method_line. rewrite <- method_members_snd in H.
+  apply sub_l, sub_l, sub_l, sub_l, sub_r. now apply sub_params.
+Qed.
+Lemma sub_method_ret m : tm_ret m <> TS SVoid -> sub (idl_name (tm_ret m)) (method_text m).
+Proof.
+  intro H. unfold method_text, method_line, ret_str.
+  destruct (String.eqb_spec (print (tm_ret m)) "v") as [Ev|_]; [apply print_v in Ev; contradiction|].
+  apply sub_l, sub_l, sub_l, sub_l, sub_l, sub_l, sub_r, sub_l, sub_r, sub_refl.
+Qed.
+Lemma sub_signal_param kw x t : In t (tg_params x) -> sub (idl_name t) (signal_text kw x).
+Proof.
+  intro H. unfold signal_text, sigprop_line. rewrite <- (tuple_fields_snd 0 (tg_params x)) in H.
+  apply sub_l, sub_l, sub_l, sub_l, sub_l, sub_r. now apply sub_params.
+Qed.
+
+Lemma sub_itf_methods o : sub (methods_text o) (itf_text o).
+Proof. unfold itf_text. apply sub_l, sub_l, sub_l, sub_r, sub_refl. Qed.
+Lemma sub_itf_signals o : sub (signals_text o) (itf_text o).
+Proof. unfold itf_text. apply sub_l, sub_l, sub_l, sub_l, sub_r, sub_refl. Qed.
+Lemma sub_itf_props o : sub (props_text o) (itf_text o).
+Proof. unfold itf_text. apply sub_l, sub_l, sub_l, sub_l, sub_l, sub_r, sub_refl. Qed.
+
+Lemma sub_member (p : string * ty) : sub (idl_name (snd p)) (member_text p).
+Proof. unfold member_text. apply sub_l, sub_l, sub_l, sub_r, sub_refl. Qed.
+Lemma sub_struct_member n fs p : In p fs -> sub (idl_name (snd p)) (struct_text n fs).
+Proof.
+  intro H. eapply sub_trans; [apply sub_member|]. unfold struct_text.
+  apply sub_l, sub_l, sub_l, sub_r. apply sub_concat. now apply in_map.
+Qed.
+
+Lemma object_deep_sub E f o (T : string) : object_ok E o -> sub (itf_text o) T -> f = S (String.length T) -> object_deep f o.
+Proof.
+  intros [_ _ Hms Hss Hps _ _ _] HT ->. rewrite Forall_forall in Hms, Hss, Hps. repeat split; apply Forall_forall.
+  - intros m Hm. destruct (Hms m Hm) as [Hts Hrt _ _ _ _].
+    assert (Hm' : sub (method_text m) T).
+    { eapply sub_trans; [|exact HT]. eapply sub_trans; [|apply sub_itf_methods]. apply sub_concat. now apply in_map. }
+    split.
+    + apply Forall_forall. intros t Ht. rewrite Forall_forall in Hts. destruct (Hts t Ht) as (_ & Hs & _).
+      apply sub_depth; [assumption|]. eapply sub_trans; [|exact Hm']. now apply sub_method_param.
+    + destruct Hrt as [Hv|(_ & Hs & _)]; [now left|].
+      destruct (tm_ret m) as [[]| | | |] eqn:Er; try (right; apply sub_depth; [assumption|];
+        eapply sub_trans; [|exact Hm']; rewrite <- Er; apply sub_method_ret; congruence). now left.
+  - intros x Hx. destruct (Hss x Hx) as [Hts _ _ _].
+    apply Forall_forall. intros t Ht. rewrite Forall_forall in Hts. destruct (Hts t Ht) as (_ & Hs & _).
+    apply sub_depth; [assumption|]. eapply sub_trans; [|exact HT]. eapply sub_trans; [|apply sub_itf_signals].
+    eapply sub_trans; [now apply (sub_signal_param "sig" x)|]. apply sub_concat. now apply in_map.
+  - intros x Hx. destruct (Hps x Hx) as [Hts _ _ _].
+    apply Forall_forall. intros t Ht. rewrite Forall_forall in Hts. destruct (Hts t Ht) as (_ & Hs & _).
+    apply sub_depth; [assumption|]. eapply sub_trans; [|exact HT]. eapply sub_trans; [|apply sub_itf_props].
+    eapply sub_trans; [now apply (sub_signal_param "prop" x)|]. apply sub_concat. now apply in_map.
+Qed.
